@@ -39,6 +39,8 @@ fn main() {
         "codec" => codec::main(&args[2..]),
         "range" => misc::range_main(&args[2..]),
         "locks" => misc::locks_main(&args[2..]),
+        "race" => misc::race_main(&args[2..]),
+        "hold" => misc::hold_main(&args[2..]),
         "conc" => conc::main(&args[2..]),
         _ => {
             eprintln!("usage: hx hashd | run <cases> [mode] | codec .. | range .. | locks .. | conc ..");
